@@ -108,6 +108,7 @@ type VerifScript struct {
 	Dels   []string `json:"dels"`
 	Ret    string   `json:"ret"`
 	Events int      `json:"events"`
+	Iops   string   `json:"iops"` // internal operations the call reports (empty: none)
 }
 
 type stubVmErr struct{ s string }
@@ -191,7 +192,7 @@ func runScript(contractState *statedb.ContractState, payload, contractAddress []
 	for i := 0; i < sc.Events; i++ {
 		evs = append(evs, &types.Event{ContractAddress: contractAddress, EventIdx: int32(i), EventName: "ev", JsonArgs: "[]"})
 	}
-	return sc.Ret, evs, "", fee, nil
+	return sc.Ret, evs, sc.Iops, fee, nil
 }
 
 func Call(contractState *statedb.ContractState, payload, contractAddress []byte, ctx *vmContext) (string, []*types.Event, string, *big.Int, error) {
